@@ -1,0 +1,7 @@
+//go:build !verif
+
+package geom
+
+func verifFit(int, bool) {}
+
+func verifSplit(int, int) {}
